@@ -17,6 +17,7 @@ EXPLANATION = (
     "Also decided: the pool's set discipline (idle first, chosen worker counted busy, new worker started, finished worker leaves busy and is idle-or-retired under the minimum test), the worker waits for and clears its event each round, nothing fallible runs in denyConnection outside its try/finally and nothing escapes it, the refusal is encodable and its header names its encoding. "
     'Also decided (round 7): A worker is handed back to the pool only by a thread that stays alive; the event is cleared before the slot is read and not again before the next wait. '
     'Also decided (round 9): In _handshake the refusal (denied_reason) is decided before the payload is decoded and before the validator runs. '
+    'Also decided (round 10): A newly created worker enters a pool set only after its thread was started; the communication timeout is on the socket when accept() hands it over, so the refusal path runs under it (shared from C05). '
     "Not decided: races inside the interpreter's set operations, liveness of close, timing."
 )
 
